@@ -55,8 +55,8 @@ class VFS:
         os.stat = self.real_stat
 
 
-def request(iface, app, path, headers):
-    req = drivers.Req(path=path.encode(), headers=headers, server=("t", 80))
+def request(iface, app, path, headers, method="GET"):
+    req = drivers.Req(method=method, path=path.encode(), headers=headers, server=("t", 80))
     if iface == "wsgi":
         r = drivers.run_wsgi(app, drivers.to_environ(req))
         return r.code, {k.lower(): v for k, v in (r.headers or [])}, r.body, r.exc
@@ -124,7 +124,13 @@ def run_history(ctx, vfs, iface, app, url_path, file_path, seq, start_frac, zone
                     "weak": [("If-None-Match", "W/" + j["etag"])],
                     "weaklist": [("If-None-Match", f'"zzz", W/{j["etag"]}')],
                 }[base]
-            st, h, body, exc = request(iface, app, url_path, hd)
+            # conditional requests are sent as GET or HEAD (a HEAD answer has no body; status and validators are the same)
+            method = "HEAD" if (op != "plain" and (step + len(seq)) % 3 == 0) else "GET"
+            st, h, body, exc = request(iface, app, url_path, hd, method)
+            if method == "HEAD" and st == 200 and exc is None:
+                if body:
+                    ctx.violation("head-with-body", case, f"step {step} {op}")
+                body = content[0]
             ctx.mon("history-checker")
             cur = {"ver": ver[0], "size": len(content[0]), "m": vfs.state[file_path]["m"], "c": vfs.state[file_path]["c"]}
             if exc is not None:
@@ -187,7 +193,9 @@ def setup(ctx):
     os.makedirs(os.path.join(d, "sub"))
     targets = []
     for iface, ns in (("wsgi", wsgi), ("asgi", asgi)):
-        files, pages = ns.Files(d), ns.Pages(d)
+        # non-default cache settings must not change revalidation
+        files, pages = ns.Files(d, cacheability="no-store", max_age=0), ns.Pages(d, cacheability="no-cache", max_age=1)
+        targets += [(iface, ns.Files(d), "/f.txt", os.path.join(d, "f.txt")), (iface, ns.Pages(d, cacheability="private"), "/p", os.path.join(d, "p.html"))]
         targets += [(iface, files, "/f.txt", os.path.join(d, "f.txt")), (iface, pages, "/p", os.path.join(d, "p.html")),
                     (iface, pages, "/sub/", os.path.join(d, "sub", "index.html")), (iface, pages, "/f.txt", os.path.join(d, "f.txt"))]
     return targets
@@ -200,7 +208,7 @@ def run(ctx):
         rng = ctx.rng("c14")
         if ctx.shard == 0:
             for seq in REGRESSION:
-                for t in targets[:1] + targets[4:5]:
+                for t in targets[:1] + targets[len(targets) // 2:len(targets) // 2 + 1]:
                     run_history(ctx, vfs, t[0], t[1], t[2], t[3], seq, 0.0)
                     ctx.case(("reg", t[0], seq))
         maxlen = 3 if ctx.quick else 4
@@ -213,7 +221,8 @@ def run(ctx):
                 if not ctx.mine(idx):
                     continue
                 # rotate targets so that every history runs on both interfaces and the Pages targets get their share
-                for t in (targets[idx % 4], targets[4 + (idx // 4) % 4]):
+                half = len(targets) // 2
+                for t in (targets[idx % half], targets[half + (idx // half) % half]):
                     nt = run_history(ctx, vfs, t[0], t[1], t[2], t[3], seq, (0.0, 0.3, 0.9)[idx % 3], ZONES[(idx // 3) % len(ZONES)])
                     ctx.case_enum(nt)
         ctx.exhaustive = True
